@@ -366,6 +366,23 @@ def vec_forms(N, L):
         for k in (-1, 0, 1):
             fs.append(('diag(outer,%d)' % k, lambda x, k=k: algopy.diag(Ox(x), k) * cvec(max(N - abs(k), 0)) if N - abs(k) > 0 else x * 1.0))
             fs.append(('diag(V,%d)*M' % k, lambda x, k=k: algopy.diag(x * x, k)[:N, :N] * cmat(N, N)))
+        # rectangular polynomial matrices (wide and tall) under triu / tril with offsets
+        if N >= 2:
+            Wd = lambda x: algopy.outer(x[:N - 1], x * cvec(N) + 1.0)          # (N-1, N): wide
+            Tl = lambda x: algopy.outer(x * cvec(N) + 1.0, x[:N - 1])          # (N, N-1): tall
+            for k in (-1, 0, 1, 2):
+                fs.append(('tril(wide,%d)' % k, lambda x, k=k: algopy.tril(Wd(x), k)))
+                fs.append(('triu(tall,%d)' % k, lambda x, k=k: algopy.triu(Tl(x), k)))
+                fs.append(('tril(tall,%d)' % k, lambda x, k=k: algopy.tril(Tl(x), k)))
+        # discrete Fourier transforms with cropping / zero padding: real(ifft(fft(x), n=m)) is a real linear map L_m (reference:
+        # L_m from NumPy applied to the identity), squared element-wise to make it non-linear
+        for m in sorted(set([max(N - 1, 1), N, N + 2])):
+            Lm = np.real(np.fft.ifft(np.fft.fft(np.eye(N), axis=0), n=m, axis=0))
+            Fm = np.real(np.fft.fft(np.eye(N), n=m, axis=0))
+            fs.append(('real(ifft(fft(x),n=%d))^2' % m, (lambda x, m=m: algopy.real(algopy.fft.ifft(algopy.fft.fft(x), n=m)) ** 2),
+                       (lambda x, Lm=Lm: np.dot(Lm, x) ** 2)))
+            fs.append(('real(fft(x,n=%d))*c' % m, (lambda x, m=m: algopy.real(algopy.fft.fft(x * x, n=m)) * cvec(m)),
+                       (lambda x, Fm=Fm, m=m: np.dot(Fm, x * x) * cvec(m))))
         # constants and polynomials of rank 3 (cubic shapes, not symmetric in any pair of axes)
         C3 = np.array([(-1) ** (i + j) * (1 + i + 2 * j + 4 * k) for i in range(N) for j in range(N) for k in range(N)], dtype=float).reshape(N, N, N)
         C32 = C3[:, :, :2] if N >= 2 else C3
@@ -432,9 +449,11 @@ def run_vecpoly(c, N, drv, tier):
         Ls = sorted(set([1, N, P, D]))          # Gamma is rebuilt on every init / extract call
     c.out['lists'] = {}
     for L in Ls:
-        for name, f in vec_forms(N, L):
+        for item in vec_forms(N, L):
+            name, f = item[0], item[1]
+            fref = item[2] if len(item) > 2 else f          # reference program on exact polynomials (same function unless given)
             try:
-                sym = f(qpoly.variables(N))
+                sym = fref(qpoly.variables(N))
             except Exception as ex:
                 c.fail('C09|vecpoly|reference raises|%s' % name, {'form': name, 'L': L}, {'error': str(ex)[:160]})
                 continue
@@ -484,7 +503,7 @@ def run_vecpoly(c, N, drv, tier):
                 except Exception as ex:
                     c.out['evals'] += 1
                     c.fail('C09|vecpoly|%s|%s|raises' % (drv, name), case, {'error': '%s: %s' % (type(ex).__name__, str(ex)[:160])})
-    c.out['samples'] = [{'N': N, 'driver': drv, 'P': int(P), 'D': int(D), 'constant_lengths': [int(l) for l in Ls], 'forms': [n for n, _ in vec_forms(N, 1)]}]
+    c.out['samples'] = [{'N': N, 'driver': drv, 'P': int(P), 'D': int(D), 'constant_lengths': [int(l) for l in Ls], 'forms': [it[0] for it in vec_forms(N, 1)]}]
 
 
 def Fraction_(t):
